@@ -18,7 +18,7 @@ MANIFEST = {
             "drivers; too small U / L-subscript estimates must stop with the library's diagnostic. Inputs: patterns without "
             "zero-free diagonal, dense rows/columns, thresholds 0..1, random forced pivot orders (usepr), static and dynamic "
             "supernode storage, w/relax/maxsuper sweeps, 1..8 threads with seeded perturbation.",
-    "note": "Glu_alloc and DynamicSetMap are RE-TRANSLATED from pmemory.c on every run (coq/AllocGen.v; every next-pointer may only be touched under its own lock, else the translator refuses) and proved equal to AllocModel.bump, with the blocks of any run consecutive, disjoint and inside the capacity (AllocTie.v; c05_source_alloc_*). PARTIAL by nature: the George & Ng bound is proved for the elimination model on patterns (any pivots, zero-free "
+    "note": "?PresetMap (static and dynamic scheme, four precisions: coq/PresetMapGen.v / PresetMapTie.v, c05_source_presetmap_is_model, _dyn_is_model, _slots_sound), Glu_alloc and DynamicSetMap are RE-TRANSLATED from p?memory.c / pmemory.c on every run (coq/AllocGen.v; every next-pointer may only be touched under its own lock, else the translator refuses) and proved equal to AllocModel.bump, with the blocks of any run consecutive, disjoint and inside the capacity (AllocTie.v; c05_source_alloc_*). PARTIAL by nature: the George & Ng bound is proved for the elimination model on patterns (any pivots, zero-free "
             "diagonal) and the row-merge counts are tied exactly to qrnzcnt's colcnt_h and to the returned L of every run "
             "(extracted rm_colcounts); the qrnzcnt algorithm itself (Gilbert-Ng-Peyton skeleton counting) is not modelled line by "
             "line. C memory safety in general is a runtime property (ASan samples it). Trusted: Coq kernel, extraction, hooks, "
